@@ -116,6 +116,7 @@ type zvRound struct {
 	Applied       int      `json:"fsm_requests"`
 	AppliedDel    int      `json:"fsm_delete_requests"`
 	Ops           []string `json:"fsm_request_order,omitempty"`
+	BatchLens     []int    `json:"fsm_batch_sizes,omitempty"`
 	ViaProduction bool     `json:"through_replicateACLType"`
 	RoundErr      string   `json:"round_error,omitempty"`
 	RoundIndex    uint64   `json:"round_returned_index"`
@@ -1233,7 +1234,7 @@ func zvParallel(workers int, n int64, fn func(pool zvPool, i int64)) {
 
 func TestZZVerifC19(t *testing.T) {
 	run := core.NewRun("C19", "exploration",
-		"Part A, per type (tokens, policies, roles, config entries): positions of the enumeration {input order: production|permuted} x {local: per id absent|x|y}^4 x {remote: per id absent|(x|y)x(modify index 1|5|9)}^4 x {lastRemoteIndex 0|4|9} (1 166 886 positions), those inconsistent with history dropped (750 854 remain); thorough: all of them, quick: 20 000 seed-drawn consistent positions per type. Each case: real secondary store holding `local` (+ per-case drawn local-scoped tokens / local exported-services, unmigrated empty-id list items, sentinel rows in unrelated tables), production diff on the production reads, result applied through a real FSM, then replicated set vs primary by (id, hash, full content), local-only rows, all other tables and index rows, and no-write-when-equal. non-trivial = ids overlap and the round wrote something and also left something alone (or both deleted and upserted); distinct by (type, position). Part B (both tiers, exhaustive): the same oracle on content the secondary's store constrains - 64 scenarios of a token re-created in the primary under the same accessor with a new secret; all 34x34 pairs of unique-name assignments over 3 ids x 3 names for policies and for roles; all 13x13 pairs of valid sets over {proxy-defaults http, service-defaults http, service-router, ingress-gateway http listener} x 2 input orders; each also replayed for up to 4 identical rounds to record whether retries converge. ACL rounds of parts A and B run through the real (*Server).replicateACLType (minimal Server, replicator doubles embedding the production replicators); a rejected round is attributed by replaying the same diff deletions-first. Part C: a real primary/secondary server pair, the primary walked through 150 (quick) / 1200 (thorough) states of a 6-slot config-entry universe via its endpoints, one real replicateConfig round judged per step.")
+		"Part A, per type (tokens, policies, roles, config entries): positions of the enumeration {input order: production|permuted} x {local: per id absent|x|y}^4 x {remote: per id absent|(x|y)x(modify index 1|5|9)}^4 x {lastRemoteIndex 0|4|9} (1 166 886 positions), those inconsistent with history dropped (750 854 remain); thorough: all of them, quick: 20 000 seed-drawn consistent positions per type. Each case: real secondary store holding `local` (+ per-case drawn local-scoped tokens / local exported-services, unmigrated empty-id list items, sentinel rows in unrelated tables), production diff on the production reads, result applied through a real FSM, then replicated set vs primary by (id, hash, full content), local-only rows, all other tables and index rows, and no-write-when-equal. non-trivial = ids overlap and the round wrote something and also left something alone (or both deleted and upserted); distinct by (type, position). Part B (both tiers, exhaustive): the same oracle on content the secondary's store constrains - 64 scenarios of a token re-created in the primary under the same accessor with a new secret; all 34x34 pairs of unique-name assignments over 3 ids x 3 names for policies and for roles; all 13x13 pairs of valid sets over {proxy-defaults http, service-defaults http, service-router, ingress-gateway http listener} x 2 input orders; each also replayed for up to 4 identical rounds to record whether retries converge. ACL rounds of parts A and B run through the real (*Server).replicateACLType (minimal Server, replicator doubles embedding the production replicators); a rejected round is attributed by replaying the same diff deletions-first. Part D: 12 (quick) / 90 (thorough) rounds per ACL type whose upserts need 2-6 size-cut batches (6-12 objects of 60-300 KiB among small ones; batch ends at the first, a middle, the second-to-last element, exactly on the limit, inside a run of ~2000 small objects) and whose deletions need up to 3 count-cut batches (0/300/4096/4097/8200+ objects only the secondary has), as initial, incremental and index-went-backwards rounds through the real replicateACLType; then a second incremental round and a full sync must write nothing. Part C: a real primary/secondary server pair, the primary walked through 150 (quick) / 1200 (thorough) states of a 6-slot config-entry universe via its endpoints, one real replicateConfig round judged per step.")
 	run.Assume(
 		"parts A/B, ACL types: replicateACLType, deleteLocalACLType, updateLocalACLType, diffACLType, SortState/Meta accessors, ensureRemoteConsistent, FetchLocal and the role FetchUpdated are the production code; DeleteLocalBatch/UpdateLocalBatch need raft, the doubles submit the same request structs (copied field for field) to the secondary's real fsm.FSM (msgpack encode + production decode)",
 		"parts A/B, config entries: replicateConfig cannot run without a primary server; the monitor replays its delete-then-upsert order and reconcileLocalConfig's loop (exported-services skipped, errors accumulated) against a real fsm.FSM; part C runs the real replicateConfig on a real server pair",
@@ -1287,6 +1288,8 @@ func TestZZVerifC19(t *testing.T) {
 		sink.flush(run)
 	}
 	zvPartB(run, sink)
+	sink.flush(run)
+	zvPartD(run, sink, workers)
 	sink.flush(run)
 	zvPartC(t, run, sink)
 	sink.flush(run)
